@@ -372,6 +372,7 @@ Proof.
   - eapply driver_disp; eauto.
   - destruct H as (V & _ & _ & R & _). eapply Inv_disp_ext; eauto.
   - exact I.
+  - destruct (transition_vonly env _ _ _ _ _ H2 K) as [K1 _]. eapply (perform_disp s1); [eapply transition_disp; eauto|exact K1|unfold vstate_of; rewrite H3; reflexivity|eauto].
 Qed.
 Lemma mstar_disp s s' : MStar env s s' -> vkeys s -> Inv_disp s -> vkeys s' /\ Inv_disp s'.
 Proof.
